@@ -348,6 +348,28 @@ fn main() {
         caps.push(format!("sequence layer: wall cap hit after {} of {} ordered pairs", seq_pairs.load(Ordering::Relaxed), nf * nf));
     }
 
+    // ---- 2c. long paths: many segments and long runs of slashes (a cap on the number of pieces must not
+    // change what a path means)
+    let mut long_paths = 0u64;
+    for k in [10usize, 100, 254, 255, 256, 257, 300, 1000, 5000] {
+        let forms = [
+            format!("/v{}x", "/".repeat(k)),
+            format!("/v/x{}", "/".repeat(k)),
+            format!("/w/{}tail", "d/".repeat(k)),
+            format!("/w/{}../secret", "d/".repeat(k)),
+            format!("/w/{}%2e%2e/secret", "d/".repeat(k)),
+            format!("/w/{}./x", "d/".repeat(k)),
+            format!("/w/{}%ff", "d/".repeat(k)),
+            format!("/w{}a{}b", "/".repeat(k), "/".repeat(k)),
+            format!("/lit/x/{}end", "seg/".repeat(k)),
+            format!("/v/{}", "a/".repeat(k)),
+        ];
+        for f in forms {
+            long_paths += 1;
+            check_path(&ctx, &t, &f, &cn, &samples);
+        }
+    }
+
     // ---- 3. live slice: what the handler receives after the Path extractor
     let mut live_paths: Vec<String> = vec![];
     for pre in ["/v", "/w"] {
@@ -376,6 +398,7 @@ fn main() {
         "atoms": atoms, "sequence_depth": depth, "prefixes": ["/", "/lit", "/v", "/w"],
         "slash_variants": cn.slash_variants.load(Ordering::Relaxed),
         "three_byte_forms": three,
+        "long_paths": long_paths,
         "sequence_layer": {"focused_paths": nf, "ordered_pairs_each_on_a_fresh_router": seq_pairs.load(Ordering::Relaxed), "lookups_per_sequence": 3},
         "outcomes": {"dispatched": cn.dispatched.load(Ordering::Relaxed), "refused_400": cn.refused.load(Ordering::Relaxed), "other_status": cn.notfound.load(Ordering::Relaxed)},
         "caps_hit": caps, "exhaustive": caps.is_empty(),
